@@ -298,9 +298,18 @@ pub(super) fn execute_optional_where_fixup<'a, S: GraphSnapshot + 'a>(
     }
 
     let mut out: Vec<Result<Row>> = Vec::new();
+    // `filtered` re-runs the outer plan as its input, so k identical outer rows already
+    // contribute k copies of every match. Emit the matches once per distinct outer row;
+    // only the null fallback is repeated for each duplicate.
+    let mut seen_with_matches: Vec<Row> = Vec::new();
     for outer_row in outer_rows {
         if let Err(err) = params.check_timeout("OptionalWhereFixup.merge") {
             return PlanIterator::Dynamic(Box::new(std::iter::once(Err(err))));
+        }
+        if seen_with_matches.iter().any(|seen| {
+            row_contains_all_bindings(seen, &outer_row) && row_contains_all_bindings(&outer_row, seen)
+        }) {
+            continue;
         }
         let mut matched = false;
         for row in &filtered_rows {
@@ -308,6 +317,9 @@ pub(super) fn execute_optional_where_fixup<'a, S: GraphSnapshot + 'a>(
                 out.push(Ok(row.clone()));
                 matched = true;
             }
+        }
+        if matched {
+            seen_with_matches.push(outer_row.clone());
         }
         if !matched {
             let mut null_row = outer_row;
